@@ -270,7 +270,7 @@ def _mutate_conform(ev):
 C11 = dict(
     family="conform", trace_module="Trace_Conform.tla",
     models=[dict(name="mc_conform", module="MC_Conform.tla", cfg=dict(quick="MC_Conform.cfg", thorough="MC_Conform.cfg"),
-                 cases=_conform_case, limit=dict(quick=9000, thorough=None))],
+                 cases=_conform_case, limit=dict(quick=None, thorough=None))],
     nontrivial=lambda ev: ev.get("ev") == "Conform",
     key=lambda ev: [ev.get("kind"), ev.get("datum")],
     mutate=_mutate_conform, chunk=3000,
